@@ -369,6 +369,44 @@ def rule_layer_roundtrip(rep, repo, table):
     for p_, v_ in (("units", 4), ("filters", 8), ("kernel_size", (3, 3))):
       if p_ in params:
         kw[p_] = v_
+    # array-valued options: a kernel mask for every kernel shape class
+    # (both sides > 1, a unit-length side, 1x1)
+    if "mask" in params:
+      from ..pe import NDArr, nd_equal
+      for mshape in ((3, 3), (2, 3), (1, 3), (3, 1), (1, 1)):
+        vals = [(i * 7 + 3) % 2 for i in range(mshape[0] * mshape[1])]
+        mk = NDArr.from_flat(vals, mshape) if mshape != (1, 1) else NDArr(
+            [[1]])
+        kwm = dict(kw, kernel_size=mshape, mask=mk)
+        mcfg = "%s(mask of shape %s)" % (name, mshape)
+        try:
+          om = pe.call(cref, [], dict(kwm))
+          cfgm = pe.call(pe.getattr(om, "get_config"), [], {})
+          cfgm2 = {k: (v.attrs["obj"] if isinstance(v, Mock) and
+                       v.name == "serialized" else v)
+                   for k, v in cfgm.items()}
+          fo_, ff_ = ci.find_method("from_config")
+          if ff_ is not None:
+            om2 = pe.call_func(Func(ff_, fo_.module, [], "from_config", cref,
+                                    fo_), [dict(cfgm2)], {})
+          else:
+            om2 = pe.call(cref, [], {k: v for k, v in cfgm2.items()
+                                     if k in params or ci.init_params()[2]})
+        except PyRaise as e:
+          rep.fail("R5", unit, "masked-layer-rebuild-raises",
+                   "%s rebuilt from its own get_config() raises %s" %
+                   (mcfg, e), loc=loc, instance=mcfg)
+          continue
+        except Unsupported as e:
+          skipped[mcfg] = "not interpretable: %s" % str(e)[:120]
+          continue
+        m1, m2 = om.attrs.get("_mask"), om2.attrs.get("_mask") \
+            if isinstance(om2, Obj) else None
+        rep.check(isinstance(m1, (NDArr, list)) and isinstance(
+            m2, (NDArr, list)) and nd_equal(m1, m2), "R5", unit,
+                  "mask-changed-by-config-round-trip",
+                  "%s: the mask of the rebuilt layer is %r, the original "
+                  "%r" % (mcfg, m2, m1), loc=loc, instance=mcfg)
     try:
       o = pe.call(cref, [], dict(kw))
       cfg = pe.call(pe.getattr(o, "get_config"), [], {})
